@@ -51,6 +51,9 @@ def times(rng, n, regular=None, start=None):
     regular = rng.random() < 0.5 if regular is None else regular
     if regular:
         step = rng.choice([1, 2, 30, 60, 60, 600, 3600, 86400])
+        if rng.random() < 0.15:
+            # steps whose reciprocal is not a float: k x step x (1 / step) can land a unit in the last place below k
+            step = rng.choice([3, 7, 49, 98, 103, 107, 161, 187, 196, 197])
         return [start + i * step for i in range(n)], step
     steps = [rng.choice([1, 2, 7, 30, 60, 61, 90, 600, 3600, 86400, 3 * 86400]) for _ in range(max(0, n - 1))]
     if n >= 4 and rng.random() < 0.3:
